@@ -2515,6 +2515,7 @@ func (c *Core) preSeal() error {
 	// Clear any rotation progress
 	c.rootRotationConfig = nil
 	c.recoveryRotationConfig = nil
+	c.sealManager.resetRotations()
 
 	if c.metricsCh != nil {
 		close(c.metricsCh)
